@@ -3,6 +3,7 @@ package props
 import (
 	"encoding/json"
 	"fmt"
+	"io"
 
 	"github.com/tormoder/fit/dyncrc16"
 
@@ -265,6 +266,47 @@ func runC14(w *vx.W) {
 		res := append(append([]byte{}, data...), byte(want), byte(want>>8))
 		if c := dyncrc16.Checksum(res); c != 0 {
 			w.Violation("crc/large-residue", fmt.Sprintf("residue of %d bytes + sum is %#04x", n, c), rep)
+		}
+	}
+	// 5. the hash as an io.Writer target of io.Copy / io.CopyN (this is how the decoder's integrity check feeds it; an
+	// io.ReaderFrom fast path, if the hash has one, is used here): every read schedule with at most 2 deviations,
+	// including the last bytes arriving together with io.EOF
+	for li, n := range []int{0, 1, 2, 3, 7, 8, 9, 33} {
+		if !w.Mine(int64(li)) {
+			continue
+		}
+		data := long[:n]
+		want := fitmodel.CRC(data)
+		for _, ob := range []bool{false, true} {
+			var got uint16
+			var cerr error
+			_, _, err := envExplore(data, ob, false, 2, nil,
+				func(r *envReader) {
+					h := dyncrc16.New()
+					h.Write([]byte{0xAA})
+					h.Reset()
+					_, cerr = io.Copy(h, r)
+					got = h.Sum16()
+				},
+				func(x *envExec, choices []int) {
+					w.Eval(1)
+					w.Fam("io.Copy-read-schedules", 1)
+					if cerr != nil || got != want {
+						bad("copy", data, choices, want, got)
+					}
+				})
+			if err != nil {
+				w.HarnessError("C14 copy exploration: %v", err)
+			}
+		}
+		// CopyN of a prefix from a longer source
+		if n >= 2 {
+			h := dyncrc16.New()
+			io.CopyN(h, &countingReader{b: long[:n+5], chunk: 3}, int64(n))
+			w.Eval(1)
+			if h.Sum16() != want {
+				bad("copyN", data, nil, want, h.Sum16())
+			}
 		}
 	}
 	// two hashes are independent (no hidden shared state)
